@@ -16,11 +16,11 @@ STN == D("st", <<>>, <<>>, 0, 0, 0)
 MenuQuick == {WG1, WG0, WC1, RG, STG, STC}
 FollowQuick == {WC1, STN}
 MenuThorough == {WG1, WG2, WG0, WC1, RG, RC, STG, STC, STB, STN}
-FollowThorough == {RG, WC1, STC}
+FollowThorough == {WC1, STC}
 MenuSim == {WG1, WG2, WG0, WC1, RG, RC, STG, STC, STB, STE, STN}
 FollowSim == {RG, RC, WC1, WG1, STG, STB}
-MenuTour == {WG1, WC1, RG, STB, STN}
-FollowTour == {WC1}
+MenuTour == {WG1, WC1, STB, STC, STN, WG0}
+FollowTour == {WC1, STG}
 ReadDataQuick == {<<9, 1>>}
 ReadDataThorough == {<<9, 1>>, <<0, 0>>}
 BugsNone == {}
